@@ -65,6 +65,16 @@ def widening_impurities(body):
         if k == "Block" and "expr" in e["b"]:
             rec(e["b"]["expr"], depth + 1)
             return
+        if k == "If":
+            # which branch is taken is not part of the value's data flow; each branch must be lossless
+            rec(e["t"], depth + 1)
+            if "f" in e:
+                rec(e["f"], depth + 1)
+            return
+        if k == "Match" and e.get("src") == "Normal":
+            for arm in e["arms"]:
+                rec(arm["body"], depth + 1)
+            return
         if k == "Lit":
             return
         bad.append(k)
@@ -92,6 +102,7 @@ def rule_widen(c, prog):
         rd = reads_in(arm)
         okr = rd == [natural_read[wire]]
         okc = any(x.get("k") == "Call" and re.search(rf"<impl core::convert::From<{NATURAL[wire]}> for {conv}>::from$", core.callee(x) or "") for x in core.walk(arm["body"])) or \
+            any(x.get("k") == "Path" and re.search(rf"<{conv} as core::convert::From<{NATURAL[wire]}>>::from$|<impl core::convert::From<{NATURAL[wire]}> for {conv}>::from$", (x.get("inst") or x.get("defargs") or "")) for x in core.walk(arm["body"])) or \
             any(x.get("k") == "Cast" and x.get("ty") == conv and (core.strip(x["e"]).get("ty") == NATURAL[wire]) for x in core.walk(arm["body"]))
         impure = widening_impurities(arm["body"]) if okc else []
         if okr and okc and impure:
